@@ -744,7 +744,7 @@ pub fn fixed_cases(_tier: Tier) -> Vec<Case> {
             &format!("lib l3 {libfoo}"),
             &format!("libsyms l1 0:16:{libfoo} 16:-:{a}"),
             "map p1 l1 16 48 0",
-            "map p1 l2 40 64 1000",
+            "map p1 l2 48 64 1000",
             &format!("string s1 {libfoo}"),
             &format!("string s2 {hex10}"),
             &format!("cat c1 {} 5", hx("Regular")),
@@ -755,7 +755,7 @@ pub fn fixed_cases(_tier: Tier) -> Vec<Case> {
             "faddr f4 t1 ip 16 o 0",
             "faddr f5 t1 ra 16 o 0",
             "faddr f6 t1 ip 100 o 0",
-            "faddr f7 t1 ara 45 o 0",
+            "faddr f7 t1 ara 50 o 0",
             "faddr f8 t1 ip 20 o 0",
             "frel f9 t1 ra l2 0 o 0",
             "frel f10 t1 ip l3 16 o 0",
